@@ -60,7 +60,7 @@ def gen_tensor_case(r, cid):
     return {"kind": "tensor", "cid": cid, "names": names, "sizes": sizes, "data": data, "sampled": sampled, "sample_inputs": sample_inputs}
 
 
-def gen_gaussian_case(r, cid):
+def gen_gaussian_case(r, cid, force=None):
     nb = r.choice([0, 0, 1, 2])
     batch = [[n, r.choice([1, 2, 3])] for n in r.sample(["a", "b"], nb)]
     nreal = r.choice([1, 2, 2, 3])
@@ -78,11 +78,28 @@ def gen_gaussian_case(r, cid):
     nsi = r.choice([0, 1, 1, 2]) if mode == "eager" else 0
     sample_inputs = [["p%d" % i, r.choice([1, 2, 3])] for i in range(nsi)]
     sqrt = r.choice(["chol", "rotated", "negdiag", "wide", "wide_offset", "deficient"]) if mode == "eager" else r.choice(["chol", "rotated", "negdiag"])
+    if force:
+        # the scenario corpus of the sampler: every kind of factor, with a layout that reaches its special branch
+        mode = "eager"
+        sqrt = force
+        if force == "deficient":
+            reals = [["x", []], ["y", [2]], ["z", []]]
+            r.shuffle(reals)
+            sampled = [r.choice(["x", "z"])]
+            dim = 4
+            mats = [[round(r.gauss(0, 1), 3) for _ in range(dim * dim)] for _ in range(nb_total)]
+            locs = [[round(r.gauss(0, 1), 3) for _ in range(dim)] for _ in range(nb_total)]
+        elif force in ("wide", "wide_offset"):
+            sampled = [n for n, _ in reals]  # full sampling
+        nsi = r.choice([0, 1])
+        sample_inputs = [["p%d" % i, r.choice([1, 2, 3])] for i in range(nsi)]
     da = sum(int(math.prod(s)) for n, s in reals if n in sampled)
     extra = {}
     if sqrt == "deficient":
         if da >= dim:
             sqrt = "wide_offset"  # sampling every real input needs a proper Gaussian
+        elif force:
+            extra["rank"] = r.choice([2, 3])  # sampled dim (1) < rank <= remaining dim (3)
         else:
             extra["rank"] = r.randint(da, dim - 1)
     if sqrt == "wide_offset":
@@ -171,6 +188,12 @@ def plan(seed, tier):
             cases.append(gen_mixture_case(r, cid))
         else:
             cases.append(gen_delta_case(r, cid))
+    for kind in ("deficient", "wide_offset", "wide", "rotated", "negdiag", "chol"):
+        for _ in range(4 if tier == "quick" else 12):
+            cases.append(gen_gaussian_case(r, len(cases), force=kind))
+    for _ in range(8 if tier == "quick" else 40):
+        cases.append(gen_mixture_case(r, len(cases)))
+    ncases = len(cases)
     jobs = []
     for ci in range(0, ncases, chunk):
         group = cases[ci : ci + chunk]
